@@ -14,24 +14,28 @@ Ltac Zify.zify_post_hook ::= Z.div_mod_to_equations.
 
 (** children contributed to the enclosing scope after the first pass / fuel of the pass *)
 Fixpoint clen (l : list item) : nat :=
-  match l with [] => O | IName _ :: t => S (S (clen t)) | IBlk _ _ _ _ _ :: t => S (clen t) end.
+  match l with [] => O | IName _ :: t => S (S (clen t)) | IBlk _ _ _ _ _ :: t => S (clen t)
+               | ILeaf _ _ _ ta :: t => S (length ta + clen t) end.
 
 Fixpoint cfuel_item (it : item) : nat :=
   match it with IName _ => 2%nat
-              | IBlk bk _ _ fa body => (6 + length (bfx bk fa) + fold_right (fun x n => (cfuel_item x + n)%nat) O body)%nat end.
+              | IBlk bk _ _ fa body => (6 + length (bfx bk fa) + fold_right (fun x n => (cfuel_item x + n)%nat) O body)%nat
+              | ILeaf lk _ fa ta => (8 + length (lfx lk fa) + 2 * length ta)%nat end.
 Definition cfuel (l : list item) : nat := fold_right (fun x n => (cfuel_item x + n)%nat) O l.
 Lemma cfuel_cons x t : cfuel (x :: t) = (cfuel_item x + cfuel t)%nat. Proof. reflexivity. Qed.
 Lemma cfuel_blk bk k seg fa body : cfuel_item (IBlk bk k seg fa body) = (6 + length (bfx bk fa) + cfuel body)%nat. Proof. reflexivity. Qed.
 
+Lemma cfuel_leaf lk seg fa ta : cfuel_item (ILeaf lk seg fa ta) = (8 + length (lfx lk fa) + 2 * length ta)%nat. Proof. reflexivity. Qed.
+
 Lemma clen_le_cfuel l : (clen l <= cfuel l)%nat.
-Proof. induction l as [|[d|bk k seg fa body] t IH]; [cbn; lia| |]; rewrite cfuel_cons; cbn [clen]; [cbn [cfuel_item]|rewrite cfuel_blk]; lia. Qed.
+Proof. induction l as [|[d|bk k seg fa body|lk seg fa ta] t IH]; [cbn; lia| | |]; rewrite cfuel_cons; cbn [clen]; [cbn [cfuel_item]|rewrite cfuel_blk|rewrite cfuel_leaf]; lia. Qed.
 
 Lemma lay2_cons h tbl b off x t : lay2 h tbl b off (x :: t) = lay2_item h tbl b off x ++ lay2 h tbl (b + N.of_nat (isz x)) (off + lenN (enc_item x)) t.
 Proof. reflexivity. Qed.
 
 Lemma lay2_nodes h tbl : forall l b off x, In x (rnodesl (lay2 h tbl b off l)) -> b <= x < b + N.of_nat (iszs l).
 Proof.
-  induction l as [|d rest IH|bk k seg fa body rest IHb IH] using items_ind; intros b off x Hx; [contradiction| |].
+  induction l as [|d rest IH|bk k seg fa body rest IHb IH|lk seg fa ta rest IH] using items_ind; intros b off x Hx; [contradiction| | |].
   - rewrite lay2_cons, rnodesl_app in Hx. rewrite iszs_cons. apply in_app_or in Hx. destruct Hx as [Hx|Hx].
     + cbn [lay2_item rnodesl flat_map rnodes app In] in Hx. cbn [isz]. lia.
     + apply IH in Hx. cbn [isz] in *. lia.
@@ -42,6 +46,10 @@ Proof.
       * unfold rnodesl in Hx. cbn [flat_map] in Hx. rewrite app_nil_r, rnodes_eq in Hx. unfold nfx in Hx.
         destruct Hx as [<-|Hx]; [lia|]. apply IHb in Hx. lia.
     + apply IH in Hx. rewrite isz_blk in Hx. lia.
+  - rewrite lay2_cons, rnodesl_app in Hx. rewrite iszs_cons, isz_leaf. apply in_app_or in Hx. destruct Hx as [Hx|Hx].
+    + cbn [lay2_item] in Hx. unfold rnodesl in Hx. cbn [flat_map] in Hx. rewrite app_nil_r, rnodes_eq in Hx.
+      destruct Hx as [<-|Hx]; [lia|]. apply leaf_row_nodes in Hx. rewrite app_length, len_lhd_pays, len_cst_pays in Hx. lia.
+    + apply IH in Hx. rewrite isz_leaf in Hx. lia.
 Qed.
 
 (** what the pass does to a range of slots *)
@@ -76,6 +84,98 @@ Qed.
 
 Lemma last_app_two' {A} (l : list A) x y d : last (l ++ [x; y]) d = y.
 Proof. replace (l ++ [x; y]) with ((l ++ [x]) ++ [y]) by (rewrite <- app_assoc; reflexivity). apply last_app_one. Qed.
+
+(** ---- moving a run of siblings below the target ---- *)
+Lemma attach_go : forall cs f obj tg l1 l2 ao atg s g pl (Q : pres -> pstate -> Prop),
+  Rep (p_tree s) g pl -> kids g obj = l1 ++ tg :: cs ++ l2 ->
+  (forall c, In c cs -> kids g c = [] /\ exists ac, pget pl c = Some ac /\ y_op ac <> opFreed) ->
+  pget pl obj = Some ao -> y_op ao <> opFreed -> pget pl tg = Some atg -> y_op atg <> opFreed ->
+  (forall t' g', Rep t' g' pl -> length (g_kids g') = length (g_kids g) ->
+     (forall y, kids g' y = if y =? tg then kids g tg ++ cs else if y =? obj then l1 ++ tg :: l2 else kids g y) ->
+     Q ROk (with_tree s t')) ->
+  wp False (attachSiblings_go (length cs + S f) obj tg (hd InvalidIndex (cs ++ l2)) (N.of_nat (length cs)) false) s Q.
+Proof.
+  induction cs as [|c cs IH]; intros f obj tg l1 l2 ao atg s g pl Q H Hk Hcs Hao Hlo Hatg Hltg K.
+  - cbn [length Nat.add]. rewrite attachSiblings_go_S. change (N.of_nat 0 =? 0) with true. cbv iota. apply wp_ret.
+    assert (E : with_tree s (p_tree s) = s) by (destruct s; reflexivity). rewrite <- E. apply (K (p_tree s) g H eq_refl).
+    intros y. rewrite app_nil_r. cbn [app] in Hk. destruct (N.eqb_spec y tg) as [->|]; [reflexivity|]. destruct (N.eqb_spec y obj) as [->|]; [exact Hk|reflexivity].
+  - pose proof (rep_R _ _ _ H) as HR. cbn [length app hd] in *.
+    destruct (Hcs c (or_introl eq_refl)) as (Hkc & ac & Hac & Hlc).
+    change (S (length cs) + S f)%nat with (S (length cs + S f)). rewrite attachSiblings_go_S.
+    assert (En : N.of_nat (S (length cs)) =? 0 = false) by (apply N.eqb_neq; lia). rewrite En. rewrite andb_false_r.
+    apply wp_bind. apply wp_ret. rewrite (rep_not_Inv _ _ _ _ _ H Hac).
+    apply wp_bind. unfold objectAt. apply wp_get. rewrite (rep_ObjectAt _ _ _ H _ _ Hac Hlc).
+    apply wp_bind. apply wp_need.
+    assert (Hk2 : kids g obj = (l1 ++ [tg]) ++ c :: (cs ++ l2)) by (rewrite <- app_assoc; exact Hk).
+    apply wp_bind. eapply (wp_rdf_sib False obj (l1 ++ [tg]) c (cs ++ l2)); [exact H|exact Hk2|]. intros o1 _ _ _ Hnext _. rewrite Hnext.
+    apply wp_bind. eapply (wp_rdf_sib False obj (l1 ++ [tg]) c (cs ++ l2)); [exact H|exact Hk2|]. intros o2 _ Hpar _ _ _. rewrite Hpar.
+    apply wp_bind. unfold objectAt. apply wp_get. rewrite (rep_ObjectAt _ _ _ H _ _ Hao Hlo).
+    assert (Hin_c : In c (kids g obj)) by (rewrite Hk2; apply in_or_app; right; left; reflexivity).
+    assert (Hin_t : In tg (kids g obj)) by (rewrite Hk; apply in_or_app; right; left; reflexivity).
+    assert (Hlive_o : glive g obj) by (eapply rep_live; eauto).
+    assert (Hlive_t : glive g tg) by (eapply rep_live; eauto).
+    assert (Hlive_c : glive g c) by (eapply rep_live; eauto).
+    assert (Hnd : NoDup (kids g obj)).
+    { destruct (rep_obj _ _ _ H _ _ Hao Hlo) as (oo & Hoo & Epay & _).
+      assert (Hloo : o_opcode oo <> opFreed) by (rewrite (pay_op _ _ Epay); exact Hlo).
+      destruct (R_kids _ _ HR _ _ Hoo Hloo) as (_ & _ & _ & Hnd). exact Hnd. }
+    assert (Hnotin : ~ In c ((l1 ++ [tg]) ++ cs ++ l2)) by (apply NoDup_mid_notin; rewrite <- Hk2; exact Hnd).
+    assert (Hrem : remove1 c (kids g obj) = l1 ++ tg :: cs ++ l2).
+    { rewrite Hk2, remove1_split; [rewrite <- app_assoc; reflexivity|]. intros Hi. apply Hnotin. apply in_or_app. left. exact Hi. }
+    apply wp_bind. eapply wp_detach_rep; [exact H|exact Hin_c|]. intros t1 H1. rewrite Hrem in H1.
+    set (g1 := set_kids g obj (l1 ++ tg :: cs ++ l2)) in *.
+    assert (Holt : obj < N.of_nat (length (g_kids g))) by (apply glive_lt; exact Hlive_o).
+    assert (Htlt : tg < N.of_nat (length (g_kids g))) by (apply glive_lt; exact Hlive_t).
+    assert (Hne_to : tg <> obj) by (eapply (R_child_neq_parent _ _ HR); eauto).
+    assert (Hne_co : c <> obj) by (eapply (R_child_neq_parent _ _ HR); eauto).
+    assert (Hne_ct : c <> tg).
+    { intros E. apply Hnotin. rewrite E. apply in_or_app. left. apply in_or_app. right. left. reflexivity. }
+    assert (Hk1 : forall q, kids g1 q = if q =? obj then l1 ++ tg :: cs ++ l2 else kids g q).
+    { intros q. unfold g1. apply kids_set_kids. exact Holt. }
+    assert (Hroot1 : groot g1 c).
+    { intros q Hq. rewrite Hk1 in Hq. destruct (N.eqb_spec q obj) as [E|Hne].
+      - apply Hnotin. rewrite <- app_assoc. exact Hq.
+      - apply Hne. eapply (R_parent_unique _ _ HR); eauto. }
+    assert (Hnd1 : ~ desc g1 c tg).
+    { intros Hd. apply desc_leaf in Hd; [congruence|]. rewrite Hk1. apply N.eqb_neq in Hne_co. rewrite Hne_co. exact Hkc. }
+    apply wp_bind. eapply (wp_append_rep False tg c _ g1 pl); [exact H1|apply glive_set_kids; exact Hlive_t|apply glive_set_kids; exact Hlive_c|exact Hroot1|exact Hnd1|].
+    intros t2 H2. rewrite Hk1 in H2. assert (Eto : tg =? obj = false) by (apply N.eqb_neq; exact Hne_to). rewrite Eto in H2.
+    set (g2 := set_kids g1 tg (kids g tg ++ [c])) in *.
+    assert (Hk2' : forall q, kids g2 q = if q =? tg then kids g tg ++ [c] else if q =? obj then l1 ++ tg :: cs ++ l2 else kids g q).
+    { intros q. unfold g2. rewrite kids_set_kids by (unfold g1; rewrite len_set_kids; exact Htlt). rewrite Hk1. reflexivity. }
+    replace (N.of_nat (S (length cs)) - 1) with (N.of_nat (length cs)) by lia.
+    assert (Eot : obj =? tg = false) by (apply N.eqb_neq; congruence).
+    eapply (IH f obj tg l1 l2 ao atg _ g2 pl Q); [exact H2| | |exact Hao|exact Hlo|exact Hatg|exact Hltg|].
+    + rewrite Hk2', Eot, N.eqb_refl. reflexivity.
+    + intros c' Hc'. destruct (Hcs c' (or_intror Hc')) as (Hkc' & Hp'). split; [|exact Hp'].
+      rewrite Hk2'. destruct (N.eqb_spec c' tg) as [E|_].
+      { exfalso. assert (Hnt : ~ In tg (l1 ++ (c :: cs) ++ l2)) by (apply NoDup_mid_notin; cbn [app]; rewrite <- Hk; exact Hnd).
+        apply Hnt. apply in_or_app. right. apply in_or_app. left. right. rewrite <- E. exact Hc'. }
+      destruct (N.eqb_spec c' obj) as [E|_]; [|exact Hkc'].
+      exfalso. subst c'. apply (R_child_neq_parent _ _ HR obj obj); [|reflexivity]. rewrite Hk. apply in_or_app. right. right. right. apply in_or_app. left. exact Hc'.
+    + intros t' g' H' Hlen' Hk'. apply (K t' g' H').
+      * rewrite Hlen'. unfold g2, g1. rewrite !len_set_kids. reflexivity.
+      * intros y. rewrite Hk', !Hk2', N.eqb_refl. destruct (N.eqb_spec y tg); [rewrite <- app_assoc; reflexivity|].
+        destruct (N.eqb_spec y obj); reflexivity.
+Qed.
+
+(** a run of childless children in the middle of the child list is stepped over *)
+Lemma conn_leaves_mid : forall D1 f obj L D2 s g pl (Q : pres -> pstate -> Prop),
+  Rep (p_tree s) g pl -> kids g obj = L ++ D1 ++ D2 ->
+  (forall d, In d D1 -> kids g d = [] /\ exists a row, pget pl d = Some a /\ y_op a <> opFreed /\ opInfo (y_info a) = Some row) ->
+  wp False (connectNamed_loop (S (S f)) obj (last L InvalidIndex)) s Q ->
+  wp False (connectNamed_loop (length D1 + S (S f)) obj (last (L ++ D1) InvalidIndex)) s Q.
+Proof.
+  induction D1 as [|x D1 IH] using rev_ind; intros f obj L D2 s g pl Q H Hk Hall K.
+  - cbn [length Nat.add]. rewrite app_nil_r. exact K.
+  - rewrite app_length. cbn [length]. replace (length D1 + 1 + S (S f))%nat with (S (S (S (length D1 + f))))%nat by lia.
+    rewrite app_assoc, last_app_one. destruct (Hall x) as (Hkx & a & row & Ha & Hl & Hrow); [apply in_or_app; right; left; reflexivity|].
+    assert (Hk' : kids g obj = (L ++ D1) ++ x :: D2) by (rewrite Hk, <- !app_assoc; reflexivity).
+    eapply (CNloop_leaf _ obj x (L ++ D1) D2 a row); [exact H|exact Hk'|exact Ha|exact Hl|exact Hkx|exact Hrow|].
+    replace (S (S (length D1 + f)))%nat with (length D1 + S (S f))%nat by lia.
+    eapply (IH f obj L (x :: D2)); [exact H|rewrite Hk, <- !app_assoc; reflexivity| |exact K].
+    intros d Hd. apply Hall. apply in_or_app. left. exact Hd.
+Qed.
 
 Section ConnSpec.
 Variable h tbl : N.
@@ -348,11 +448,228 @@ Proof.
   - intros y Hy. rewrite iszs_cons, isz_blk in Hy. fold l nf in Hy. unfold pl3. rewrite pget_pupd. destruct (N.eqb_spec y b); [lia|]. rewrite U4 by lia. apply Q4. unfold B'. lia.
 Qed.
 
+Lemma lk_conn lk : hasFlag 1 aml_pOpFlagNamed = true /\ (lk_op lk =? aml_pOpIntScopeBlock) = false /\
+  ((1 + N.of_nat (length (lk_ws lk)) =? argCount (lk_af lk)) || (argCount (lk_af lk) <=? termArgIndex (lk_af lk))) = Nat.eqb (lk_nt lk) 0 /\
+  (lk_nt lk <> O -> w8 (argCount (lk_af lk) + 0x100 - termArgIndex (lk_af lk)) = N.of_nat (lk_nt lk)).
+Proof. destruct lk; repeat split; intros Hn; try reflexivity; exfalso; apply Hn; reflexivity. Qed.
+
+Lemma lhd_rows (lk : lkind) off fa : forall p, In p (lhd_pays h tbl lk off fa) -> exists row, opInfo (y_info p) = Some row /\ y_op p <> opFreed.
+Proof.
+  unfold lhd_pays. intros p [<-|Hp]; [eexists; split; [reflexivity|discriminate]|].
+  generalize dependent (off + llo lk + 4). generalize (lfx lk fa). induction f as [|[w v] r IH]; intros o Hp; [contradiction|].
+  cbn [fx_pays In] in Hp. destruct Hp as [<-|Hp]; [destruct w; (eexists; split; [reflexivity|discriminate])|]. apply (IH _ Hp).
+Qed.
+
+Lemma cst_rows : forall ta off, forallb cst_okb ta = true -> forall p, In p (cst_pays h off ta) -> exists row, opInfo (y_info p) = Some row /\ y_op p <> opFreed.
+Proof.
+  induction ta as [|d r IH]; intros off Hok p Hp; [contradiction|]. cbn [forallb] in Hok. apply andb_prop in Hok. destruct Hok as [Hd Hok].
+  unfold cst_okb in Hd. apply andb_prop in Hd. destruct Hd as [Hc _].
+  cbn [cst_pays In] in Hp. destruct Hp as [<-|Hp]; [apply const_row'; exact Hc|apply (IH _ Hok _ Hp)].
+Qed.
+
+Lemma seqN_app b m n : seqN b (m + n) = seqN b m ++ seqN (b + N.of_nat m) n.
+Proof.
+  revert b. induction m as [|m IH]; intros b; [cbn [Nat.add seqN app]; rewrite N.add_0_r; reflexivity|].
+  cbn [Nat.add seqN app]. rewrite IH. f_equal. f_equal. f_equal. lia.
+Qed.
+
+(** a leaf named object: its children are stepped over, it gets its name, and the constants that follow it become
+    its arguments *)
+Lemma CNloop_lobj lk F x b pre cs l2 ps p off seg ax s g pl (Q : pres -> pstate -> Prop) :
+  Rep (p_tree s) g pl -> kids g x = pre ++ b :: cs ++ l2 -> kids g b = p :: ps ->
+  (forall d, In d (p :: ps) -> kids g d = [] /\ exists a row, pget pl d = Some a /\ y_op a <> opFreed /\ opInfo (y_info a) = Some row) ->
+  (forall c, In c cs -> kids g c = [] /\ exists ac, pget pl c = Some ac /\ y_op ac <> opFreed) ->
+  pget pl x = Some ax -> y_op ax <> opFreed -> x <> b -> ~ In b cs ->
+  pget pl b = Some (lf_pay h lk off name_zero) -> pget pl p = Some (pth_pay h tbl (off + llo lk)) ->
+  p_handle s = h -> slice_bytes s tbl (mkSlice (Some (off + llo lk)) 4) = Ok (seg_bytes seg) ->
+  length ps = length (lk_ws lk) -> length cs = lk_nt lk ->
+  (forall t' g', Rep t' g' (pupd pl b (ys_name (seg_nm seg))) ->
+     (forall y, kids g' y = if y =? b then (p :: ps) ++ cs else if y =? x then pre ++ b :: l2 else kids g y) ->
+     wp False (connectNamed_loop (S (S (S (S (S (S (length ps + (length cs + F)))))))) x (last pre InvalidIndex)) (with_tree s t') Q) ->
+  wp False (connectNamed_loop (S (S (S (S (S (S (S (length ps + (length cs + F))))))))) x b) s Q.
+Proof.
+  intros H Hkx Hkb Hps Hcs Hx Hlx Hxb Hbcs Hb Hp Hh Hsl Hlps Hlcs K.
+  destruct (lk_conn lk) as (Hnamed & Hnsb & Hbr & Hw8). destruct (lk_facts lk) as (_ & _ & Hnf & _ & _ & Hinfo).
+  assert (Hlb : y_op (lf_pay h lk off name_zero) <> opFreed) by exact Hnf.
+  remember (length ps + (length cs + F))%nat as X eqn:EX.
+  rewrite connectNamed_loop_S. set (FC := S (S (S (S (S (S X)))))). rewrite (rep_not_Inv _ _ _ _ _ H Hb).
+  apply wp_bind. eapply wp_objectAt_rep; [exact H|exact Hb|exact Hlb|].
+  apply wp_bind. eapply wp_rdf_rep; [exact H|exact Hb|exact Hlb|]. intros od _ Hidx _ _. rewrite Hidx.
+  apply wp_bind. change (connectNamedObjArgs FC b) with (connectNamedObjArgs (S (S (S (S (S (S X)))))) b). rewrite connectNamedObjArgs_S.
+  apply wp_bind. eapply wp_objectAt_rep; [exact H|exact Hb|exact Hlb|].
+  apply wp_bind. eapply wp_rdf_rep; [exact H|exact Hb|exact Hlb|]. intros od2 _ _ _ Hlast. rewrite Hlast, Hkb.
+  replace (S (S (S (S (S X))))) with (length (p :: ps) + S (S (S (S (length cs + F)))))%nat by (cbn [length]; lia).
+  eapply (conn_leaves (p :: ps) _ b [] _ g pl); [exact H|rewrite Hkb, app_nil_r; reflexivity|exact Hps|].
+  change (negb (pres_eqb ROk ROk)) with false. cbv iota zeta.
+  apply wp_bind. eapply wp_rdo_rep; [exact H|exact Hb|exact Hlb|]. intros aod Hpayd _ Hfirst _.
+  rewrite (pay_info _ _ Hpayd). cbn [lf_pay y_info]. apply wp_bind. eapply wp_info; [exact Hinfo|]. cbv beta iota.
+  apply wp_bind, wp_get. rewrite (pay_th _ _ Hpayd), (pay_op _ _ Hpayd), Hfirst, Hkb. cbn [List.hd lf_pay y_th y_op]. rewrite Hh, N.eqb_refl.
+  rewrite (rep_not_Inv _ _ _ _ _ H Hp). rewrite Hnamed, Hnsb. cbn [negb orb].
+  apply wp_bind. eapply wp_objectAt_rep; [exact H|exact Hp|discriminate|].
+  apply wp_bind. eapply wp_rdo_rep; [exact H|exact Hp|discriminate|]. intros nop Hpayp _ _ _.
+  unfold valueBytes. rewrite (pay_val _ _ Hpayp). cbn [pth_pay y_val s_len]. change (4 <? aml_amlNameLen) with false. cbv iota.
+  apply wp_bind. eapply wp_bytesOf'; [exact Hsl|].
+  apply wp_bind. unfold setNameFrom. rewrite seg_bytes_nm. cbn [rev app].
+  eapply (wp_wrf_rep False _ _ (ys_name (seg_nm seg))); [exact H|exact Hb|exact Hlb|apply st_name|].
+  intros t3 H3. set (pl3 := pupd pl b (ys_name (seg_nm seg))) in *.
+  assert (Hp3 : forall y, y <> b -> pget pl3 y = pget pl y) by (intros y Hy; unfold pl3; rewrite pget_pupd; destruct (N.eqb_spec y b); [contradiction|reflexivity]).
+  assert (PN3 : pget pl3 b = Some (lf_pay h lk off (seg_nm seg))) by (unfold pl3; rewrite pget_pupd, N.eqb_refl, Hb; reflexivity).
+  assert (Px3 : pget pl3 x = Some ax) by (rewrite Hp3 by exact Hxb; exact Hx).
+  assert (Hlive_b : live t3 b).
+  { apply (R_live_glive _ _ (rep_R _ _ _ H3)). eapply rep_live; [exact H|exact Hb|exact Hlb]. }
+  apply wp_bind. eapply wp_tq; [apply (NumArgs_spec _ _ (rep_R _ _ _ H3) b Hlive_b)|].
+  rewrite Hkb. cbn [length]. replace (N.of_nat (S (length ps))) with (1 + N.of_nat (length (lk_ws lk))) by lia. rewrite Hbr.
+  destruct (lk_nt lk) as [|ntm1] eqn:Ent; cbn [Nat.eqb]; cbv iota.
+  - (* no further arguments *)
+    assert (Hcs0 : cs = []) by (destruct cs; [reflexivity|discriminate]). subst cs. cbn [app] in Hkx.
+    apply wp_bind. eapply (wp_rdf_sib False x pre b l2); [exact H3|exact Hkx|]. intros o3 _ _ Hprev3 _ _. rewrite Hprev3.
+    unfold FC. apply (K t3 g H3). intros y. rewrite app_nil_r.
+    destruct (N.eqb_spec y b) as [->|_]; [exact Hkb|]. destruct (N.eqb_spec y x) as [->|_]; [exact Hkx|reflexivity].
+  - (* the constants become arguments *)
+    rewrite Hw8 by discriminate. rewrite <- Hlcs.
+    apply wp_bind. unfold attachSiblingsAsArgs.
+    apply wp_bind. eapply (wp_rdf_sib False x pre b (cs ++ l2)); [exact H3|exact Hkx|]. intros o3 _ _ _ Hnext3 _. rewrite Hnext3.
+    change (attachSiblings_go FC) with (attachSiblings_go (S (S (S (S (S (S X))))))).
+    replace (S (S (S (S (S (S X)))))) with (length cs + S (S (S (S (S (S (length ps + F)))))))%nat by lia.
+    eapply (attach_go cs _ x b pre l2 ax _ _ g pl3); [exact H3|exact Hkx| |exact Px3|exact Hlx|exact PN3|exact Hnf|].
+    { intros c Hc. destruct (Hcs c Hc) as (A & a0 & Pa & La). split; [exact A|]. exists a0. split; [|exact La].
+      rewrite Hp3; [exact Pa|]. intros E. apply Hbcs. rewrite <- E. exact Hc. }
+    intros t4 g4 H4 _ Hk4. change (negb (pres_eqb ROk ROk)) with false. cbv iota.
+    assert (Hk4x : kids g4 x = pre ++ b :: l2).
+    { rewrite Hk4. apply N.eqb_neq in Hxb. rewrite Hxb, N.eqb_refl. reflexivity. }
+    apply wp_bind. eapply (wp_rdf_sib False x pre b l2); [exact H4|exact Hk4x|]. intros o4 _ _ Hprev4 _ _. rewrite Hprev4.
+    unfold FC. apply (K t4 g4 H4). intros y. rewrite Hk4, Hkb. reflexivity.
+Qed.
+
+(** the tree of a leaf named object after the pass *)
+Lemma post2_leaf g pl g1 pl1 g' x b off lk seg fa ta rest pre post B' off' :
+  let nf := length (lfx lk fa) in let nt := length ta in let ci := b + 2 + N.of_nat nf in
+  B' = b + N.of_nat (2 + nf + nt) -> (x < b \/ B' + N.of_nat (iszs rest) <= x) ->
+  Post2 g pl g1 pl1 x B' (iszs rest) (pre ++ b :: seqN ci nt) post (lay2 h tbl B' off' rest) ->
+  pget pl1 b = Some (lf_pay h lk off name_zero) ->
+  (forall i p, nth_error (lhd_pays h tbl lk off fa) i = Some p -> pget pl1 (b + 1 + N.of_nat i) = Some p /\ kids g1 (b + 1 + N.of_nat i) = []) ->
+  (forall i p, nth_error (cst_pays h (ta_off lk off fa) ta) i = Some p -> pget pl1 (ci + N.of_nat i) = Some p /\ kids g1 (ci + N.of_nat i) = []) ->
+  (forall y, kids g' y = if y =? b then seqN (b + 1) (S nf) ++ seqN ci nt
+                         else if y =? x then pre ++ b :: (map ridx (lay2 h tbl B' off' rest) ++ post) else kids g1 y) ->
+  Post2 g pl g' (pupd pl1 b (ys_name (seg_nm seg))) x b (2 + nf + nt + iszs rest) pre post
+        (lay2_item h tbl b off (ILeaf lk seg fa ta) ++ lay2 h tbl B' off' rest).
+Proof.
+  intros nf nt ci HB' Hrange [Q1 Q2 Q3 Q4] PN1 Hrow1 Hcrow1 Hk'.
+  set (pl3 := pupd pl1 b (ys_name (seg_nm seg))).
+  set (hdp := lhd_pays h tbl lk off fa) in *. set (cs := cst_pays h (ta_off lk off fa) ta) in *.
+  assert (Hlh : length hdp = S nf) by apply len_lhd_pays.
+  assert (Hlc : length cs = nt) by apply len_cst_pays.
+  assert (Hxb : x <> b) by lia.
+  assert (Hp3 : forall y, y <> b -> pget pl3 y = pget pl1 y) by (intros y Hy; unfold pl3; rewrite pget_pupd; destruct (N.eqb_spec y b); [contradiction|reflexivity]).
+  assert (PN3 : pget pl3 b = Some (lf_pay h lk off (seg_nm seg))) by (unfold pl3; rewrite pget_pupd, N.eqb_refl, PN1; reflexivity).
+  assert (Hko : forall y, y <> b -> y <> x -> kids g' y = kids g1 y).
+  { intros y Hyb Hyx. rewrite Hk'. apply N.eqb_neq in Hyb. apply N.eqb_neq in Hyx. rewrite Hyb, Hyx. reflexivity. }
+  cbn [lay2_item]. fold hdp cs. constructor.
+  - rewrite Hk'. apply N.eqb_neq in Hxb. rewrite Hxb, N.eqb_refl. cbn [app map ridx]. reflexivity.
+  - apply Forall_app. split.
+    + constructor; [|constructor]. constructor.
+      * exact PN3.
+      * rewrite Hk', N.eqb_refl, leaf_row_idx, app_length, Hlh, Hlc, seqN_app. f_equal. f_equal. unfold ci. lia.
+      * apply leaf_row_desc. intros i p Hi.
+        destruct (Nat.ltb_spec i (S nf)) as [Hlt|Hge].
+        -- rewrite nth_error_app1 in Hi by (rewrite Hlh; exact Hlt). destruct (Hrow1 i p Hi) as (A & B0).
+           split; [rewrite Hp3 by lia; exact A|rewrite Hko by lia; exact B0].
+        -- rewrite nth_error_app2 in Hi by (rewrite Hlh; exact Hge). rewrite Hlh in Hi.
+           assert (Hilt : (i - S nf < nt)%nat) by (rewrite <- Hlc; apply nth_error_Some; congruence).
+           destruct (Hcrow1 _ p Hi) as (A & B0). replace (ci + N.of_nat (i - S nf)) with (b + 1 + N.of_nat i) in A, B0 by (unfold ci; lia).
+           split; [rewrite Hp3 by lia; exact A|rewrite Hko by lia; exact B0].
+    + apply (Desc_frame_l g1 pl1); [exact Q2|]. intros y Hy. apply lay2_nodes in Hy.
+      split; [apply Hko; lia|apply Hp3; lia].
+  - intros y Hy Hyx. rewrite Hko by lia. apply Q3; [lia|exact Hyx].
+  - intros y Hy. fold pl3. rewrite Hp3 by lia. apply Q4. lia.
+Qed.
+
+Lemma cspec_leaf lk seg fa ta rest : CSpec rest -> CSpec (ILeaf lk seg fa ta :: rest).
+Proof.
+  intros IH x pre post b off s g pl f ax R dpre dpost Q H Hk HD Hx Hlx Hrange Hh Htb Hdata Hoff Hok HR Hf K.
+  apply forallb_item_cons in Hok. destruct Hok as [Hd_ok Hok]. cbn [item_okb] in Hd_ok.
+  apply andb_prop in Hd_ok. destruct Hd_ok as [Hx' Hta]. apply andb_prop in Hx'. destruct Hx' as [Hx' Hlta]. apply Nat.eqb_eq in Hlta.
+  apply andb_prop in Hx'. destruct Hx' as [Hx' _]. apply andb_prop in Hx'. destruct Hx' as [_ Hlfa]. apply Nat.eqb_eq in Hlfa.
+  rewrite lay1_cons in Hk, HD |- *. rewrite iszs_cons, isz_leaf in Hrange. rewrite cfuel_cons, cfuel_leaf in Hf.
+  cbn [lay1_item] in Hk, HD |- *. rewrite isz_leaf, enc_leaf in Hk, HD |- *.
+  set (l := lfx lk fa) in *. set (nf := length l) in *. set (lo := llo lk) in *. set (nt := length ta) in *.
+  assert (Hm : nlf lk fa = N.of_nat nf) by reflexivity. rewrite Hm in *.
+  assert (Hnfw : nf = length (lk_ws lk)) by (unfold nf, l, lfx; rewrite combine_length; lia).
+  set (hdp := lhd_pays h tbl lk off fa) in *. set (cs := cst_pays h (ta_off lk off fa) ta) in *.
+  assert (Hlh : length hdp = S nf) by apply len_lhd_pays.
+  assert (Hlc : length cs = nt) by apply len_cst_pays.
+  set (ci := b + 2 + N.of_nat nf) in *.
+  set (B' := b + N.of_nat (2 + nf + nt)) in *.
+  set (off' := off + lenN (enc_op (lk_op lk) ++ seg_bytes seg ++ enc_fx l ++ enc_ta ta)) in *.
+  cbn [app map ridx] in Hk |- *. rewrite map_app, leaf_row_idx, Hlc in Hk |- *.
+  pose proof (Forall_inv HD) as DN. apply Forall_inv_tail in HD. apply Forall_app in HD. destruct HD as [HDcs HDrest].
+  destruct (Desc_inv _ _ _ _ _ DN) as (PN & KN & HDhd). rewrite leaf_row_idx, Hlh in KN.
+  pose proof (leaf_row_desc_inv _ _ _ _ HDhd) as Hrow. pose proof (leaf_row_desc_inv _ _ _ _ HDcs) as Hcrow.
+  rewrite enc_items_cons, enc_leaf in Hdata. fold l in Hdata.
+  replace (pre ++ b :: seqN ci nt ++ map ridx (lay1 h tbl B' off' rest)) with ((pre ++ b :: seqN ci nt) ++ map ridx (lay1 h tbl B' off' rest)) by (rewrite <- app_assoc; reflexivity).
+  eapply (IH x (pre ++ b :: seqN ci nt) post B' off' s g pl f ax (R + 8 + nf + 2 * nt)%nat (dpre ++ enc_op (lk_op lk) ++ seg_bytes seg ++ enc_fx l ++ enc_ta ta) dpost Q);
+    [exact H|rewrite Hk, <- !app_assoc; reflexivity|exact HDrest|exact Hx|exact Hlx|unfold B'; lia|exact Hh|exact Htb| | |exact Hok|lia|lia|].
+  { rewrite Hdata, <- !app_assoc. reflexivity. }
+  { unfold off'. rewrite Hoff. symmetry. apply lenN_app. }
+  intros t1 g1 pl1 H1 P1. pose proof P1 as [Q1 Q2 Q3 Q4].
+  assert (Hout1 : forall y, b <= y < b + N.of_nat (2 + nf + nt) -> (y < B' \/ B' + N.of_nat (iszs rest) <= y) /\ y <> x) by (intros y Hy; unfold B'; lia).
+  assert (KN1 : kids g1 b = seqN (b + 1) (S nf)) by (rewrite Q3 by (apply Hout1; lia); exact KN).
+  assert (PN1 : pget pl1 b = Some (lf_pay h lk off name_zero)) by (rewrite Q4 by (apply Hout1; lia); exact PN).
+  assert (Hrow1 : forall i p, nth_error hdp i = Some p -> pget pl1 (b + 1 + N.of_nat i) = Some p /\ kids g1 (b + 1 + N.of_nat i) = []).
+  { intros i p Hi. assert (Hilt : (i < S nf)%nat) by (rewrite <- Hlh; apply nth_error_Some; congruence).
+    destruct (Hrow i p Hi) as (A & B0). split; [rewrite Q4 by (apply Hout1; lia); exact A|rewrite Q3 by (apply Hout1; lia); exact B0]. }
+  assert (Hcrow1 : forall i p, nth_error cs i = Some p -> pget pl1 (ci + N.of_nat i) = Some p /\ kids g1 (ci + N.of_nat i) = []).
+  { intros i p Hi. assert (Hilt : (i < nt)%nat) by (rewrite <- Hlc; apply nth_error_Some; congruence).
+    destruct (Hcrow i p Hi) as (A & B0). unfold ci in *. split; [rewrite Q4 by (apply Hout1; lia); exact A|rewrite Q3 by (apply Hout1; lia); exact B0]. }
+  assert (Px1 : pget pl1 x = Some ax) by (rewrite Q4 by (unfold B'; lia); exact Hx).
+  set (l2 := map ridx (lay2 h tbl B' off' rest) ++ post) in *.
+  assert (Hk1 : kids g1 x = pre ++ b :: seqN ci nt ++ l2) by (rewrite Q1, <- !app_assoc; reflexivity).
+  assert (Hcsleaf : forall d, In d (seqN ci nt) -> kids g1 d = [] /\ exists a row, pget pl1 d = Some a /\ y_op a <> opFreed /\ opInfo (y_info a) = Some row).
+  { intros d Hd. apply seqN_in in Hd.
+    assert (Ei : exists i, d = ci + N.of_nat i /\ (i < nt)%nat) by (exists (N.to_nat (d - ci)); lia).
+    destruct Ei as (i & -> & Hi). destruct (nth_error cs i) as [p|] eqn:Ep; [|apply nth_error_None in Ep; lia].
+    destruct (Hcrow1 i p Ep) as (A & B0). destruct (cst_rows ta _ Hta p (nth_error_In _ _ Ep)) as (row & Hr & Hlp).
+    split; [exact B0|]. exists p, row. auto. }
+  assert (Hhdleaf : forall d, In d (seqN (b + 1) (S nf)) -> kids g1 d = [] /\ exists a row, pget pl1 d = Some a /\ y_op a <> opFreed /\ opInfo (y_info a) = Some row).
+  { intros d Hd. apply seqN_in in Hd.
+    assert (Ei : exists i, d = b + 1 + N.of_nat i /\ (i < S nf)%nat) by (exists (N.to_nat (d - (b + 1))); lia).
+    destruct Ei as (i & -> & Hi). destruct (nth_error hdp i) as [p|] eqn:Ep; [|apply nth_error_None in Ep; lia].
+    destruct (Hrow1 i p Ep) as (A & B0). destruct (lhd_rows lk off fa p (nth_error_In _ _ Ep)) as (row & Hr & Hlp).
+    split; [exact B0|]. exists p, row. auto. }
+  assert (PP1 : pget pl1 (b + 1) = Some (pth_pay h tbl (off + lo))).
+  { rewrite <- (N.add_0_r (b + 1)). apply (Hrow1 0%nat). reflexivity. }
+  assert (Hsl : slice_bytes (with_tree s t1) tbl (mkSlice (Some (off + lo)) 4) = Ok (seg_bytes seg)).
+  { replace (off + lo) with (lenN (dpre ++ enc_op (lk_op lk))) by (rewrite lenN_app, Hoff; reflexivity).
+    eapply (slice_at _ tbls tbl data _ (seg_bytes seg) (enc_fx l ++ enc_ta ta ++ enc_items rest ++ dpost)); [exact Htb|exact Hnth| |reflexivity].
+    rewrite Hdata, <- !app_assoc. reflexivity. }
+  assert (EF : exists f', (f - clen rest = nt + S (S (S (S (S (S (S (nf + (nt + f')))))))))%nat).
+  { pose proof (clen_le_cfuel rest). exists (f - clen rest - 7 - nf - 2 * nt)%nat. lia. }
+  destruct EF as (f' & EF). rewrite EF.
+  (* the constants *)
+  replace (pre ++ b :: seqN ci nt) with ((pre ++ [b]) ++ seqN ci nt) by (rewrite <- app_assoc; reflexivity).
+  replace nt with (length (seqN ci nt)) at 1 by apply seqN_len.
+  eapply (conn_leaves_mid (seqN ci nt) _ x (pre ++ [b]) l2 _ g1 pl1); [exact H1|rewrite Hk1, <- !app_assoc; reflexivity|exact Hcsleaf|].
+  rewrite last_app_one.
+  (* the named object *)
+  replace (S (S (S (S (S (S (S (nf + (nt + f')))))))))  with (S (S (S (S (S (S (S (length (seqN (b + 1 + 1) nf) + (length (seqN ci nt) + f'))))))))) by (rewrite !seqN_len; reflexivity).
+  eapply (CNloop_lobj lk f' x b pre (seqN ci nt) l2 (seqN (b + 1 + 1) nf) (b + 1) off seg ax _ g1 pl1);
+    [exact H1|exact Hk1|exact KN1|exact Hhdleaf| |exact Px1|exact Hlx|lia| |exact PN1|exact PP1|exact Hh|exact Hsl|rewrite seqN_len; exact Hnfw|rewrite seqN_len; exact Hlta|].
+  { intros c Hc. destruct (Hcsleaf c Hc) as (A & a0 & row & Pa & La & _). split; [exact A|]. exists a0. auto. }
+  { intros Hin. apply seqN_in in Hin. unfold ci in Hin. lia. }
+  intros t3 g3 H3 Hk3. rewrite !seqN_len.
+  replace (S (S (S (S (S (S (nf + (nt + f')))))))) with (f - clen (ILeaf lk seg fa ta :: rest))%nat by (cbn [clen]; fold nt; lia).
+  apply (K t3 g3 _ H3).
+  rewrite lay2_cons, isz_leaf, enc_leaf, iszs_cons, isz_leaf. fold l nf nt B' off'.
+  apply (post2_leaf g pl g1 pl1 g3 x b off lk seg fa ta rest pre post B' off'); [reflexivity|unfold B'; lia|exact P1|exact PN1|exact Hrow1|exact Hcrow1|].
+  intros y. rewrite Hk3. reflexivity.
+Qed.
+
 Theorem cspec_all : forall its, CSpec its.
 Proof.
-  induction its as [|d rest IH|bk k seg fa body rest IHb IH] using items_ind.
+  induction its as [|d rest IH|bk k seg fa body rest IHb IH|lk seg fa ta rest IH] using items_ind.
   - apply cspec_nil.
   - apply cspec_name. exact IH.
   - apply cspec_blk; assumption.
+  - apply cspec_leaf; assumption.
 Qed.
 End ConnSpec.
